@@ -22,6 +22,9 @@ open OmplModel OmplModel.Driver OmplModel.SpaceDist
 structure St where
   sp : Option (SpaceX Float)
   car : Option (CarSpace Float) := none
+  /-- the tree under test still has the former `weights_[i] >= epsilon` guard in `CompoundStateSpace::getMaximumExtent`
+  (header `spacedist-oldextent`; the check reads the source text) -/
+  oldExtent : Bool := false
 
 /-- `dubins <rho> <sym> <lo>*2 <hi>*2 | reedsshepp <rho> <lo>*2 <hi>*2 | owen|vana|vanaowen <rho> <maxPitch> <lo>*3 <hi>*3` -/
 partial def pCar : P (CarSpace Float)
@@ -121,6 +124,7 @@ partial def nodeAtX : List Nat → SpaceX Float → Option (Space Float)
   | 0 :: p, .cforest s => nodeAtX p s
   | 0 :: p, .spacetime _ _ _ _ _ _ inner => nodeAt p inner
   | [], .spacetime _ w0 w1 b lo hi inner => some (.ccons w0 inner (.ccons w1 (.time b lo hi) .cnil))
+  | [], .weighted _ w0 w1 => some (.ccons w0 .so2 (.ccons w1 .so2 .cnil))        -- (only the weights are read)
   | _, _ => none
 where
   nodeAt : List Nat → Space Float → Option (Space Float)
@@ -151,6 +155,11 @@ partial def modAtX (f : Space Float → Option (Space Float)) : List Nat → Spa
     | _ => none
   | _, _ => none
 
+/-- Torus / Möbius / Klein bottle / Sphere: compounds of two components with weights 1, 1 -/
+def isSpecial : Space Float → Bool
+  | .torus .. | .mobius .. | .klein | .sphere _ => true
+  | _ => false
+
 /-- `CompoundStateSpace::setSubspaceWeight(idx, w)` on the node at `path`: `if (weight < 0.0) throw` (the space is left as
 it is), `if (componentCount_ > index) weights_[index] = weight; else throw`.  A SpaceTimeStateSpace is itself a compound
 of two components (its constructor's `lock()` only blocks `addSubspace`): path `[]` changes `weights_[0]` / `weights_[1]`,
@@ -165,23 +174,35 @@ partial def setWeightX (idx : Nat) (w : Float) : List Nat → SpaceX Float → O
       | 1 => some (.spacetime vmax w0 w b lo hi inner)
       | _ => none
     | 0 :: p, .cforest s => (setWeightX idx w p s).map .cforest
+    | [], .weighted s w0 w1 =>
+      match idx with
+      | 0 => some (.weighted s w w1)
+      | 1 => some (.weighted s w0 w)
+      | _ => none
+    | [], .base s =>
+      if isSpecial s then setWeightX idx w [] (.weighted s 1.0 1.0) else modAtX (setWeightF idx w) [] (.base s)
     | p, s => modAtX (setWeightF idx w) p s
 
 /-- `k i1 … ik rest` -/
 def pPath : P (List Nat)
   | ts => (takeCounted ts).bind fun (xs, r) => (parseNats? xs).map (·, r)
 
-def init (ts : List String) : Option St :=
+def init0 (ts : List String) : Option St :=
   match ts with
-  | ["spacedist"] => some ⟨none, none⟩
+  | ["spacedist"] => some ⟨none, none, false⟩
   | "spacedist" :: rest =>
     match pCar rest with
-    | some (c, []) => some ⟨none, some c⟩
+    | some (c, []) => some ⟨none, some c, false⟩
     | _ =>
       match pSpaceX rest with
-      | some (sp, []) => some ⟨some sp, none⟩
+      | some (sp, []) => some ⟨some sp, none, false⟩
       | _ => none
   | _ => none
+
+def init (ts : List String) : Option St :=
+  match ts with
+  | "spacedist-oldextent" :: rest => (init0 ("spacedist" :: rest)).map fun st => { st with oldExtent := true }
+  | _ => init0 ts
 
 def b2s (b : Bool) : String := if b then "1" else "0"
 
@@ -244,10 +265,10 @@ def step (st : St) (ts : List String) : St × String :=
   match ts with
   | "space" :: rest =>
     match pCar rest with
-    | some (c, []) => (⟨none, some c⟩, "ok")
+    | some (c, []) => ({ st with sp := none, car := some c }, "ok")
     | _ =>
       match pSpaceX rest with
-      | some (sp, []) => (⟨some sp, none⟩, "ok")
+      | some (sp, []) => ({ st with sp := some sp, car := none }, "ok")
       | _ => (st, "bad-op")
   | op :: rest =>
     match st.car with
@@ -289,7 +310,7 @@ def step (st : St) (ts : List String) : St × String :=
               match pFloats n r with
               | some (hi, []) =>
                 match modAtX (setBoundsF lo hi) path sx with
-                | some sx' => (⟨some sx', none⟩, "ok")
+                | some sx' => ({ st with sp := some sx', car := none }, "ok")
                 | none => (st, "bad-op")
               | _ => (st, "bad-op")
             | none => (st, "bad-op")
@@ -301,7 +322,7 @@ def step (st : St) (ts : List String) : St × String :=
           match pFloats 2 r with
           | some ([lo, hi], []) =>
             match modAtX (addDimF lo hi) path sx with
-            | some sx' => (⟨some sx', none⟩, "ok")
+            | some sx' => ({ st with sp := some sx', car := none }, "ok")
             | none => (st, "bad-op")
           | _ => (st, "bad-op")
         | none => (st, "bad-op")
@@ -312,6 +333,7 @@ def step (st : St) (ts : List String) : St × String :=
           | some (.ccons w h t) =>
             let ws := weightsOf (.ccons w h t)
             (st, joinSp (["w", toString ws.length] ++ ws.map floatBits))
+          | some s => if isSpecial s && path.isEmpty then (st, joinSp ["w", "2", floatBits 1.0, floatBits 1.0]) else (st, "bad-op")
           | _ => (st, "bad-op")
         | _ => (st, "bad-op")
       | "setweight" | "setweightn" =>
@@ -322,12 +344,13 @@ def step (st : St) (ts : List String) : St × String :=
             match pFloat r with
             | some (w, []) =>
               match setWeightX idx w path sx with
-              | some sx' => (⟨some sx', none⟩, "ok")
+              | some sx' => ({ st with sp := some sx', car := none }, "ok")
               | none => (st, "bad-op")
             | _ => (st, "bad-op")
           | none => (st, "bad-op")
         | none => (st, "bad-op")
-      | "extent" => if rest.isEmpty then (st, "ext " ++ optBits (extentX sx)) else (st, "bad-op")
+      | "extent" =>
+        if rest.isEmpty then (st, "ext " ++ optBits (if st.oldExtent then extentXOld sx else extentX sx)) else (st, "bad-op")
       | "claims" =>
         if rest.isEmpty then
           (st, s!"claims metric={b2s (claimsMetricX sx)} symdist=1 syminterp=1 discrete={b2s (isDiscreteX sx)}")
